@@ -40,10 +40,19 @@ class Ctx:
         return extract.load_ir(config)
 
 
+def _guarded(rule, units, r):
+    """Run one rule; a rule that no longer understands the code it is looking at is recorded (exit 2 at the end unless
+    another rule reports a violation) instead of hiding what the other rules of the property have to say."""
+    try:
+        rule(units, r)
+    except AnalysisBroken as e:
+        r.broken.append(str(e))
+
+
 def _per_config(ctx, R, fn, configs=None):
     for cfg in (configs or ctx.configs()):
         r = Results(config=cfg)
-        fn(ctx.units(cfg), r)
+        _guarded(fn, ctx.units(cfg), r)
         R.extend(r)
 
 
@@ -104,10 +113,13 @@ def _scoped(ctx, R, rule, entries, min_obs, configs=None):
         units = ctx.units(cfg)
         scope = _reach(units, entries)
         r = Results(config=cfg)
-        rule(units, r)
+        _guarded(rule, units, r)
         kept = [o for o in r.obs if o.function in scope]
         R.obs.extend(kept)
         R.notes.extend(r.notes)
+        R.broken.extend(r.broken)
+        if r.broken:
+            continue
         R.floor(kept[0].rule if kept else rule.__name__.upper(), 'obligations in scope of %s' % sorted(entries)[:3],
                 len(kept), min_obs)
 
